@@ -19,39 +19,66 @@ from sa import flow
 from rules.provenance import ReachingDefs, bind_args, strip_iter_wrappers
 
 EXPLANATION = (
-    "Who-may-transform and typing rules for merge_pyi.py.  R20.1: in "
-    "merge_sources the tree given to _merge_csts(pyi_tree=..) is "
-    "parse_module(pyi) passed through RemoveAnyNeverTransformer and "
-    "RemoveTrivialTypesTransformer (every step of the chain - followed through "
-    "re-assignments of the local - is `.visit(<instance of a class of the "
-    "module>)`, the instance written in place or held in a local, its "
-    "constructor arguments binding to the class's __init__; a step whose "
-    "class derives only from libcst's read-only CSTVisitor yields the receiver "
-    "itself and counts as no step), the py tree is parse_module(py) with no "
-    "transformer at all, the value returned is exactly <merged>.code, and "
-    "_merge_csts stores the pyi tree as stub and transforms the py tree with "
-    "libcst's ApplyTypeAnnotationsVisitor.  R20.2: both switches that could "
+    "Who-may-transform and typing rules for merge_pyi.py.  R20.1: the tree "
+    "given to _merge_csts(pyi_tree=..) is parse_module(pyi) passed through "
+    "RemoveAnyNeverTransformer and RemoveTrivialTypesTransformer, the py tree "
+    "is parse_module(py) with no transformer at all, the value returned is "
+    "exactly <merged>.code, and _merge_csts stores the pyi tree as stub and "
+    "transforms the py tree with libcst's ApplyTypeAnnotationsVisitor.  Which "
+    "tree passes which visitor is decided by a model run of merge_sources "
+    "with abstract visits (rules/_util_c20.py: an interpreter over the ast of "
+    "merge_sources and of the module-level helper functions it calls; "
+    "`.visit(<instance of a transformer class of the module>)` yields a new "
+    "tree, `.visit(<instance of a class deriving only from libcst's read-only "
+    "CSTVisitor>)` the receiver itself, no callback is run), so the steps may "
+    "sit in a method chain, in re-assignments of a local, in helper functions "
+    "or in a loop over a tuple of instances; constructor arguments are bound "
+    "to the class's __init__ (through module-local base classes and "
+    "super().__init__).  The run must reach the single call of _merge_csts "
+    "and may take no control decision outside visitor callbacks (an if/while/"
+    "conditional expression/and-or, a loop over anything but a tuple or list "
+    "display): it is then the only path through the pipeline and what it "
+    "shows holds for every input; otherwise, and for every construct the "
+    "interpreter does not model, the rule refuses (ANALYSIS-ERROR).  R20.2: both switches that could "
     "make libcst overwrite existing annotations (constructor and "
     "store_stub_in_context) are False, explicitly or by libcst's own default "
-    "read from its source.  R20.3: for every isinstance(p.., T) test inside a "
-    "filter predicate and every call of that predicate, the static type of "
-    "the argument (libcst dataclass field annotations followed along the "
+    "read from its source.  R20.3: for every isinstance(x.., T) test on a "
+    "libcst class inside a callback or a helper method the callbacks reach, "
+    "and every call of a helper predicate from a callback, the static type of "
+    "the subject (libcst dataclass field annotations followed along the "
     "attribute chain from the leave_X parameter) can be a T - otherwise the "
-    "filter is dead and `x: Any` is merged (defect D4); names are typed "
+    "filter is dead and `x: Any` is merged (defect D4).  Helper methods "
+    "(plain or @staticmethod, own or inherited from a module-local base, "
+    "called as self.H(..) or K.H(..)) are analysed once per assignment of "
+    "static types to their parameters, to any depth: branches whose test "
+    "cannot hold for these types are dead (early returns, guard clauses, "
+    "isinstance dispatch), the value of a helper call has the join of the "
+    "types its live returns hand back (so `bare = self._strip(annotation)` is "
+    "typed), a once-bound local holding a test is read as that test, and a "
+    "call site is a violation when no live path can return a true value; a "
+    "test that can hold for no caller is a violation too.  Names are typed "
     "flow-sensitively (join over the reaching definitions: parameter type, "
     "type of the assigned value, element type for loop and comprehension "
-    "targets; loop-carried re-bindings by fixpoint), and a narrowing test is "
+    "targets, elements put into a local list with append/insert/extend; "
+    "loop-carried re-bindings by fixpoint), and a narrowing test is "
     "used only while no name it mentions has been re-bound since it was "
     "evaluated (must-flow), so `while isinstance(p, A): p = p.value` is typed "
-    "as written.  R20.4: the local "
-    "transformers are instantiated only on the pyi chain and nothing else in "
-    "the module rewrites a tree; a class whose only foreign base is "
+    "as written.  R20.4: every instance of a local "
+    "transformer class made anywhere in the module is, in the model run of "
+    "R20.1, used for nothing but visits that lead from the parsed stub to the "
+    "tree given to _merge_csts (an instantiation the run does not execute, an "
+    "instance that visits anything else or nothing, is a violation), nothing "
+    "else in the module rewrites a tree, and a helper function the run went "
+    "through is entered from nowhere else (its visits were judged by what "
+    "that run did with them); a class whose only foreign base is "
     "libcst.CSTVisitor is read-only (libcst's CSTNode.visit returns the node "
     "itself for it - read from libcst/_nodes/base.py on every run), may be "
     "instantiated anywhere, and `.visit(<such an instance>)` is not a "
     "rewrite.  R20.5: merge_files_src writes only the "
     "merge_sources result, only to the py path it read, only in OVERWRITE "
-    "mode.  R20.6: nodes rebuilt by the filters get arguments of the "
+    "mode.  R20.6: nodes rebuilt by the filters - in a callback or in a helper "
+    "method a callback reaches, typed as for R20.3, once per typing of the "
+    "helper's parameters - get arguments of the "
     "declared field types (no Assign without value); positional arguments "
     "are bound to the fields in the order of the libcst dataclass "
     "declaration (one too many, or given twice, is a violation).  R20.7: "
@@ -61,24 +88,32 @@ EXPLANATION = (
     "each of them every return that hands back a still annotated node (the "
     "node itself, with_changes that keeps or re-installs the annotation) is "
     "unreachable when the Any/Never predicate holds for the node's own "
-    "annotation: the path condition of the return (sa.flow.guards, elif "
-    "chains, conditional expressions, locals holding the predicate's value) "
-    "is evaluated three-valued in the world 'predicate true'; tests on other "
+    "annotation: the path condition of the return (sa.flow.guards, guard "
+    "clauses, elif chains, conditional expressions, locals holding the "
+    "predicate's value) "
+    "is evaluated three-valued in the world 'predicate true'; a hoisted "
+    "temporary (`returns = original_node.returns`: one reaching definition "
+    "whose value reads only never re-bound parameters) is read as the "
+    "expression it holds; tests on other "
     "Optional fields of the node (e.g. `updated_node.value is None`) can go "
     "either way, so `x: Any = ...` surviving because only value-less "
     "declarations are removed is a violation.  R20.8 (two-site agreement "
     "printer <-> filter): the typing members the stub printer asks for when "
     "it prints `Any` / a `nothing` return are names the filter's predicate "
-    "recognises, and PrintVisitor._FromTyping spells a member as a qualified "
-    "name (`typing.X`, `<alias>.X`) only under its name-collision test "
-    "unless the predicate also recognises Attribute nodes; bare member "
-    "names and from-import aliases are the forms the Name-only predicate "
-    "sees.  (This rule found defect D44: when the analysed module itself "
+    "recognises, and every qualified spelling PrintVisitor._FromTyping can "
+    "give such a member (the text itself where it is a matter of constants, "
+    "`typing.X` otherwise) is recognised as well.  What the predicate "
+    "recognises is decided by evaluating it (the interpreter of "
+    "rules/_util_c20.py: helper methods, @staticmethod, class and module "
+    "constants that are bound once and never mutated) on the node the "
+    "spelling parses to - Name(X), Attribute(Name(typing), Name(X)); an "
+    "outcome that depends on something unknown is an ANALYSIS-ERROR.  (This "
+    "rule found defect D44: when the analysed module itself "
     "defines a name `Any`/`Never` the printer writes `typing.Any`, which the "
     "Name-only filter missed, so merge-pyi inserted `-> Any`; repaired by "
     "87d75f5, after which the predicate recognises the qualified form.)  "
     "Filter classes are resolved through base classes defined in "
-    "merge_pyi.py (callbacks may be inherited).  R20.20 "
+    "merge_pyi.py (callbacks and helpers may be inherited).  R20.20 "
     "(rules/c20_traversal.py): RemoveAnyNeverTransformer and its "
     "module-local bases have no `visit_X` override that can return a false "
     "value for a node class X whose subtree can hold a FunctionDef/AnnAssign "
@@ -97,9 +132,8 @@ EXPLANATION = (
     "imports), user stubs that spell Any through their own aliases, nor "
     "that the filters remove every undesirable annotation; whether "
     "output.py puts a Generic base into node.bases that the source class "
-    "does not have.  R20.22 / R20.23 (rules/c20_stub_classes.py; kept as "
-    "rules/pending_c20_stub_classes.py, which is not loaded, until the repair "
-    "of defects D57/D58 is in the tree under test): read from libcst's source "
+    "does not have.  R20.22 / R20.23 (rules/c20_stub_classes.py): read from "
+    "libcst's source "
     "that leave_Module appends every stub class whose simple name was not met "
     "as a ClassDef of the source (D57: the stub of `P = NamedTuple('P', ..)` "
     "has `class P(NamedTuple)`, so a class statement is inserted) and that "
@@ -107,8 +141,10 @@ EXPLANATION = (
     "annotation or a class base, and from the stub printer that a class "
     "nested in a class of the same stub is printed as `Outer.Inner` (D58: "
     "`from Outer import Inner` is added); the obligations are decided by "
-    "model execution: merge_sources and the callbacks of the local visitor / "
-    "transformer classes are interpreted (an interpreter over their ast, on "
+    "model execution: merge_sources, its helper functions and the callbacks "
+    "and helper methods of the local visitor / "
+    "transformer classes are interpreted (the interpreter of "
+    "rules/_util_c20.py, on "
     "libcst-shaped model nodes, following libcst's visit/leave protocol) on a "
     "witness source/stub pair, and the tree that reaches _merge_csts may "
     "define no class the witness source has no class statement for (R20.22) "
@@ -116,12 +152,10 @@ EXPLANATION = (
     "Annotation or a base list, nor a subscripted string (R20.23).  Blind "
     "spots of these two: only the witness is decided (names the code could "
     "not know, nesting depth up to three, annotations on variables, "
-    "parameters, returns, class attributes) - a filter that misbehaves only "
-    "on other shapes passes; subscripted dotted bases `class C(A.B[int])`, "
-    "classes defined inside function bodies (libcst does not count them as "
-    "visited, a collector may), and dotted names rooted at a stub class that "
-    "was itself dropped (`Color.RED` for a functional enum) are not in the "
-    "witness and not judged; what the interpreter does not model is an "
+    "parameters, returns, class attributes; subscripted dotted bases, a "
+    "class statement inside a function body, a dotted name rooted at a "
+    "dropped stub class) - a filter that misbehaves only on other shapes "
+    "passes; what the interpreter does not model is an "
     "ANALYSIS-ERROR.")
 ASSUMPTIONS = [
     "libcst's ApplyTypeAnnotationsVisitor only adds annotations (and the "
@@ -160,6 +194,18 @@ ASSUMPTIONS = [
     "stubs given to merge-pyi are the ones pytype's printer produces "
     "(PrintVisitor); _Imports.get_alias returns the alias of a from-import, "
     "i.e. a bare identifier",
+    "the model run of merge_sources (R20.1, R20.4) stands for every run: no "
+    "statement of the pipeline raises (a failure ends in MergeError and "
+    "nothing is written), constructors of the local visitor classes have no "
+    "effect beyond setting attributes, and helper functions of merge_pyi.py "
+    "are reached through their names only (no aliasing, no getattr)",
+    "a class attribute or module-level name bound once to a tuple / string / "
+    "frozen literal and never re-bound, augmented or mutated through a "
+    "method call in merge_pyi.py keeps that value at run time (read by the "
+    "interpreter for `self._NAMES`, `_MODULE_CONSTANT`)",
+    "helper methods of the filter classes are pure with respect to what the "
+    "rules read: the same call with the same (frozen) nodes gives the same "
+    "result, so a local holding the result can be read as the call",
 ]
 
 MP = "pytype/tools/merge_pyi/merge_pyi.py"
@@ -548,7 +594,40 @@ class Typer:
           out |= a[1]
       else:
         raise AnalysisError(f"typing: {expr.id} is bound by {d.describe()}")
+    if any(isinstance(a, tuple) for a in out):
+      # a list held in a local also holds what is put into it in place
+      extra = self._mutation_elems(expr.id)
+      if extra:
+        out = frozenset(("seq", a[1] | extra) if isinstance(a, tuple) else a for a in out)
     return out
+
+  def _mutation_elems(self, name):
+    """Static types of the elements `name.append(v)` / `.insert(i, v)` /
+    `.extend(seq)` anywhere in the function can add to the list held in local
+    `name` (flow-insensitive; aliases of the list are not followed)."""
+    key = ("mutations", name)
+    if key in self._active:
+      return frozenset()
+    self._active.add(key)
+    try:
+      out = frozenset()
+      for c in walk_no_nested(self.fn):
+        if not (isinstance(c, ast.Call) and isinstance(c.func, ast.Attribute)
+                and isinstance(c.func.value, ast.Name) and c.func.value.id == name) \
+            or id(c) in self.dead or c.keywords:
+          continue
+        if c.func.attr == "append" and len(c.args) == 1:
+          out |= self._type_of(c.args[0], self.narrow_at(c.args[0]))
+        elif c.func.attr == "insert" and len(c.args) == 2:
+          out |= self._type_of(c.args[1], self.narrow_at(c.args[1]))
+        elif c.func.attr == "extend" and len(c.args) == 1:
+          for a in self._type_of(c.args[0], self.narrow_at(c.args[0])):
+            if not isinstance(a, tuple):
+              raise AnalysisError(f"typing: {name}.extend(<{a}>)")
+            out |= a[1]
+      return out
+    finally:
+      self._active.discard(key)
 
   def _type_of(self, expr, narrow):
     key = src(expr)
@@ -1200,10 +1279,16 @@ def _root_name(expr):
   return r.id if r is not None else None
 
 
-def _is_static(fn):
-  """@staticmethod helpers take no instance; other decorators are not modelled."""
+def _is_static(fn, mod=None):
+  """Helpers that take no instance: @staticmethod methods and (with `mod`
+  given) functions at the top level of the module; other decorators are not
+  modelled."""
   decos = [dotted(d.func if isinstance(d, ast.Call) else d) or src(d)
            for d in fn.decorator_list]
+  if mod is not None and not isinstance(mod.parent.get(fn), ast.ClassDef):
+    if decos:
+      raise AnalysisError(f"{fn.name}: decorator(s) {decos} are not modelled")
+    return True
   if not decos:
     return False
   if decos == ["staticmethod"]:
@@ -1280,6 +1365,15 @@ class _Inter:
     """The helper method `self.H(..)` / `<class of the module>.H(..)` written
     inside `caller` calls, or None."""
     d = dotted(call.func) or ""
+    if isinstance(call.func, ast.Name):
+      # a function at the top level of the module, unless a local shadows it
+      h = self.mod.functions.get(d)
+      if h is None or h is caller or any(
+          isinstance(n, ast.Name) and n.id == d and not isinstance(n.ctx, ast.Load)
+          for n in ast.walk(caller)) or any(
+              a.arg == d for a in ast.walk(caller.args) if isinstance(a, ast.arg)):
+        return None
+      return h
     if d.count(".") != 1:
       return None
     head, name = d.split(".")
@@ -1335,7 +1429,7 @@ class _Inter:
   def arg_types(self, typer, call, h, narrow):
     """(parameter -> argument expr, parameter -> static type) at a call of h;
     an argument that cannot be typed is left out unless its type matters."""
-    bound = bind_args(call, h, skip_self=not _is_static(h))
+    bound = bind_args(call, h, skip_self=not _is_static(h, self.mod))
     penv = {}
     for p, a in bound.items():
       try:
@@ -1346,7 +1440,7 @@ class _Inter:
     return bound, penv
 
   def analyse(self, h, penv):
-    key = (h.name, tuple(sorted(penv.items(), key=lambda kv: kv[0])))
+    key = (h.name, h.lineno, tuple(sorted(penv.items(), key=lambda kv: kv[0])))
     res = self.memo.get(key)
     if res is None:
       if key in self.active:
@@ -1357,14 +1451,22 @@ class _Inter:
       finally:
         self.active.pop()
       self.memo[key] = res
+    self._record(res, set())
+    return res
+
+  def _record(self, res, seen):
+    if id(res) in seen:
+      return
+    seen.add(id(res))
     for i, text, line, shown, alive in res.tests:
-      rec = self.liveness.setdefault((h.name, i), {
+      rec = self.liveness.setdefault((res.fn.name, i), {
           "test": text, "line": line, "alive": False, "sites": []})
       rec["alive"] = rec["alive"] or alive
       site = f"{self.site}: {shown}"
       if site not in rec["sites"]:
         rec["sites"].append(site)
-    return res
+    for r in res.nested:
+      self._record(r, seen)
 
   def _analyse(self, h, penv):
     model = self.model
@@ -1679,6 +1781,16 @@ def r20_4(ctx):
   # no other tree rewriting call in the module
   known = chain_visits | {m.trans_call}
   extra = []
+  # a helper function of the pipeline holds visits that were judged by what
+  # the run of merge_sources did with them: it may not be entered from
+  # anywhere else
+  for fn in it.entered:
+    for n in ast.walk(mod.tree):
+      if isinstance(n, ast.Name) and n.id == fn.name and isinstance(n.ctx, ast.Load):
+        par = mod.parent.get(n)
+        if not (isinstance(par, ast.Call) and par.func is n and par in it.called):
+          where = mod.enclosing_function(n)
+          extra.append(f"{fn.name}@{where.name if where else '<module>'}")
   for c in ast.walk(mod.tree):
     if isinstance(c, ast.Call) and isinstance(c.func, ast.Attribute) \
         and c.func.attr in _REWRITERS and c not in known \
@@ -1697,15 +1809,24 @@ def r20_4(ctx):
       if rel == MP or rel.endswith("_test.py"):
         continue
       text = ctx.read(rel)
-      if not any(c in text for c in m.classes):
+      helpers = {fn.name for fn in it.entered}
+      if not any(c in text for c in set(m.classes) | helpers):
         continue
       om = get_module(ctx, rel)
+      merge_mods = {a for a, v in om.imports.items() if v.split(".")[-1] == "merge_pyi"}
       for n in ast.walk(om.tree):
         if isinstance(n, (ast.Name, ast.Attribute)) and (
             getattr(n, "id", None) in m.classes or getattr(n, "attr", None) in m.classes):
           hits.append(f"{rel}:{n.lineno}")
+        elif isinstance(n, ast.Attribute) and n.attr in helpers and \
+            isinstance(n.value, ast.Name) and n.value.id in merge_mods:
+          hits.append(f"{rel}:{n.lineno}")
+        elif isinstance(n, ast.ImportFrom) and (n.module or "").split(".")[-1] == "merge_pyi" \
+            and any(a.name in helpers for a in n.names):
+          hits.append(f"{rel}:{n.lineno}")
     ctx.check(not hits, "package:filters-not-used-elsewhere", MP, 0,
-              f"the stub filters are referenced outside merge_pyi.py: {hits[:5]}",
+              f"the stub filters (or the helper functions of merge_sources that apply "
+              f"them) are referenced outside merge_pyi.py: {hits[:5]}",
               {"references": hits[:10]})
 
 
@@ -1817,15 +1938,23 @@ def r20_6(ctx):
   """Nodes rebuilt by the filters get values of the declared field types."""
   m = _model(ctx)
   mod, model = m.mod, _cst(ctx)
-  n = 0
+  found = {}     # construct -> [(holds, line, reason, facts)], one entry per typing
   for cname in sorted(m.classes):
-    for mname, fn in sorted(_methods(mod, cname).items()):
-      env = _method_env(model, mod, fn, m.kinds[cname])
-      if env is None:
-        continue
-      typer = Typer(model, mod, env, fn)
+    an = _class_analysis(ctx, cname)
+    # the callbacks, and the helper methods they reach - a helper once per
+    # assignment of static types to its parameters (all of them must hold)
+    units = [(mname, fn, typer) for mname, fn, _, typer in an.callbacks]
+    units += [(res.fn.name, res.fn, res.typer) for _, res in sorted(
+        an.inter.memo.items(), key=lambda kv: (kv[0][0], kv[0][1], repr(kv[0][2])))]
+    for mname, fn, typer in units:
       keys = {}
+
+      def note(construct, holds, line, reason="", facts=None):
+        found.setdefault(_nth(keys, construct), []).append((holds, line, reason, facts or {}))
+
       for call in sorted(calls_in(fn), key=lambda c: (c.lineno, c.col_offset)):
+        if id(call) in typer.dead:
+          continue       # unreachable for these argument types
         built = typer.node_class(call.func)
         recv_types = None
         if built is None and isinstance(call.func, ast.Attribute) \
@@ -1849,20 +1978,18 @@ def r20_6(ctx):
           order = model.init_order(built)
           for i, a in enumerate(call.args):
             if i >= len(order):
-              n += 1
-              ctx.bad(_nth(keys, f"{cname}.{mname}:{label}(*{i})"), MP, a.lineno,
-                      f"{built} takes {len(order)} positional arguments "
-                      f"({', '.join(order)}); argument {i + 1} `{src(a)[:40]}` is "
-                      "one too many: TypeError when the filter runs",
-                      {"init_order": order})
+              note(f"{cname}.{mname}:{label}(*{i})", False, a.lineno,
+                   f"{built} takes {len(order)} positional arguments "
+                   f"({', '.join(order)}); argument {i + 1} `{src(a)[:40]}` is "
+                   "one too many: TypeError when the filter runs",
+                   {"init_order": order})
               continue
             given.append((order[i], a, "positional"))
         for k in call.keywords:
           if any(k.arg == f for f, _, _ in given):
-            n += 1
-            ctx.bad(_nth(keys, f"{cname}.{mname}:{label}({k.arg}=)"), MP, k.value.lineno,
-                    f"{built} gets {k.arg} both positionally and by keyword: "
-                    "TypeError when the filter runs")
+            note(f"{cname}.{mname}:{label}({k.arg}=)", False, k.value.lineno,
+                 f"{built} gets {k.arg} both positionally and by keyword: "
+                 "TypeError when the filter runs")
             continue
           given.append((k.arg, k.value, "keyword"))
         for fname, value, how in given:
@@ -1873,22 +2000,105 @@ def r20_6(ctx):
               accept = None
               break
             accept = ft if accept is None else (accept & ft)
-          n += 1
-          construct = _nth(keys, f"{cname}.{mname}:{label}({fname}=)")
+          construct = f"{cname}.{mname}:{label}({fname}=)"
           if accept is None:
-            ctx.bad(construct, MP, value.lineno,
-                    f"{'/'.join(owners)} declares no field {fname!r}")
+            note(construct, False, value.lineno,
+                 f"{'/'.join(owners)} declares no field {fname!r}")
             continue
           t = typer.type_of(value, narrow)
-          ctx.check(model.assignable(t, accept), construct, MP, value.lineno,
-                    f"{fname}={src(value)} has static type {show(t)} but "
-                    f"{'/'.join(owners)}.{fname} is declared {show(accept)} "
-                    "(e.g. an annotated name without value would become an "
-                    "Assign without value: invalid code)",
-                    {"value_type": show(t), "field_type": show(accept),
-                     "passed": how})
-  if not n:
+          note(construct, model.assignable(t, accept), value.lineno,
+               f"{fname}={src(value)} has static type {show(t)} but "
+               f"{'/'.join(owners)}.{fname} is declared {show(accept)} "
+               "(e.g. an annotated name without value would become an "
+               "Assign without value: invalid code)",
+               {"value_type": show(t), "field_type": show(accept),
+                "passed": how})
+  if not found:
     raise AnalysisError("no node construction found in the filters")
+  for construct, entries in found.items():
+    bad = [e for e in entries if not e[0]]
+    holds, line, reason, facts = (bad or entries)[0]
+    if len(entries) > 1:
+      facts = dict(facts, typings=len(entries))
+    ctx.check(holds, construct, MP, line, reason, facts)
+
+
+# -- once-bound locals ----------------------------------------------------------------
+
+def _subst(node, repl):
+  """Copy of an ast expression with `repl(node)` (when not None) in place of a node."""
+  if isinstance(node, ast.AST):
+    r = repl(node)
+    if r is not None:
+      return r
+    new = type(node)()
+    for f, v in ast.iter_fields(node):
+      setattr(new, f, _subst(v, repl))
+    return new
+  if isinstance(node, list):
+    return [_subst(x, repl) for x in node]
+  return node
+
+
+class _Locals:
+  """Hoisted temporaries: `resolve(expr)` is expr with every local that has
+  exactly one reaching definition `x = <value>` replaced by that value,
+  provided the value reads nothing but parameters that are never re-bound in
+  the function, names of the module and (recursively) such locals - it then
+  denotes the same object wherever it is evaluated (libcst nodes are frozen
+  dataclasses).  Anything else is left as written."""
+
+  def __init__(self, mod, fn, rd=None):
+    self.mod, self.fn = mod, fn
+    self.rd = rd or ReachingDefs(mod, fn)
+    bound = {n.id for n in ast.walk(fn) if isinstance(n, ast.Name)
+             and not isinstance(n.ctx, ast.Load)}
+    bound |= {n.target.id for n in ast.walk(fn) if isinstance(n, ast.NamedExpr)}
+    self.stable = {p for p in self.rd.params if p not in bound
+                   and p not in self.rd.unsupported}
+
+  def _value(self, name, depth):
+    if name not in self.mod.parent or depth > 8 or name.id in self.stable:
+      return None
+    try:
+      ds = self.rd.defs_of(name)
+    except AnalysisError:
+      return None
+    if len(ds) != 1:
+      return None
+    d = next(iter(ds))
+    if d.kind not in ("assign", "walrus") or d.path or d.value is None:
+      return None
+    ok = [True]
+
+    def repl(n):
+      if isinstance(n, ast.Name) and isinstance(n.ctx, ast.Load):
+        if n.id in self.stable:
+          return None
+        try:
+          if not self.rd.defs_of(n):
+            return None       # a name of the module / a builtin
+        except AnalysisError:
+          ok[0] = False
+          return None
+        v = self._value(n, depth + 1)
+        if v is None:
+          ok[0] = False
+        return v
+      if isinstance(n, (ast.Lambda, ast.ListComp, ast.SetComp, ast.DictComp,
+                        ast.GeneratorExp, ast.NamedExpr, ast.Await, ast.Yield,
+                        ast.YieldFrom)):
+        ok[0] = False
+      return None
+    out = _subst(d.value, repl)
+    return out if ok[0] else None
+
+  def resolve(self, expr):
+    return _subst(expr, lambda n: self._value(n, 0)
+                  if isinstance(n, ast.Name) and isinstance(n.ctx, ast.Load) else None)
+
+  def text(self, expr):
+    return src(self.resolve(expr))
 
 
 # -- R20.7 ---------------------------------------------------------------------------
@@ -1975,38 +2185,44 @@ def r20_7(ctx):
     typer = Typer(model, mod, env)
     chains = {f"{p}.{annfield}.annotation" for p in params}
     holders = {f"{p}.{annfield}" for p in params} | chains
+    rd = ReachingDefs(mod, fn)
+    # hoisted temporaries (`returns = original_node.returns`) are read as the
+    # expression they hold
+    loc = _Locals(mod, fn, rd)
+    inter = _Inter(model, mod, _ANY_FILTER, methods, m.kinds[_ANY_FILTER])
     pcalls = []
     for c in calls_in(fn):
-      d = dotted(c.func) or ""
-      if d.startswith("self.") and d.count(".") == 1 and d[5:] in methods and \
-          _method_env(model, mod, methods[d[5:]]) is None:
-        bound = bind_args(c, methods[d[5:]], skip_self=True)
-        if len(bound) == 1 and src(next(iter(bound.values()))) in chains:
-          pcalls.append(c)
-        else:
-          raise AnalysisError(
-              f"{fn.name}: predicate call `{src(c)[:60]}` is not applied to the "
-              f"node's own annotation ({sorted(chains)[0]})")
+      pred = inter.helper_of(c, fn)
+      if pred is None:
+        continue
+      bound = bind_args(c, pred, skip_self=not _is_static(pred, mod))
+      if len(bound) == 1 and loc.text(next(iter(bound.values()))) in chains:
+        pcalls.append(c)
+      else:
+        raise AnalysisError(
+            f"{fn.name}: predicate call `{src(c)[:60]}` is not applied to the "
+            f"node's own annotation ({sorted(chains)[0]})")
     preds = {dotted(c.func) for c in pcalls}
     if len(preds) > 1:
       raise AnalysisError(f"{fn.name}: several predicates {sorted(preds)}")
-    pcall_src = {src(c) for c in pcalls}
+    pcall_src = {loc.text(c) for c in pcalls}
     opaque = []
 
-    rd = ReachingDefs(mod, fn)
-
     def atom(t):
-      if isinstance(t, ast.Name) and t.id not in params:
+      if isinstance(t, ast.Name) and t.id not in params and t in mod.parent:
         ds = rd.defs_of(t)     # a local holding the predicate's (or a test's) value
         if len(ds) == 1:
           d = next(iter(ds))
           if d.kind == "assign" and not d.path:
             return _k3(d.value, atom)
+      t = loc.resolve(t)
       s = src(t)
       if s in pcall_src:
         return True            # world: the annotation is a bare Any/Never
       if s in holders:
         return True            # ... so the annotation exists
+      if isinstance(t, (ast.BoolOp, ast.UnaryOp)):
+        return _k3(t, atom)    # a local that held a compound test
       if isinstance(t, ast.Compare) and len(t.ops) == 1 and isinstance(
           t.comparators[0], ast.Constant) and t.comparators[0].value is None \
           and isinstance(t.ops[0], (ast.Is, ast.IsNot)):
@@ -2025,6 +2241,7 @@ def r20_7(ctx):
       return None
 
     def classify(leaf):
+      leaf = loc.resolve(leaf)
       d = dotted(leaf) or ""
       if d.endswith("RemovalSentinel.REMOVE") and \
           mod.imports.get(d.split(".")[0], "").split(".")[0] == "libcst":
@@ -2080,7 +2297,7 @@ def r20_7(ctx):
         if (id(tp[0]), tp[1]) not in seen:
           seen.add((id(tp[0]), tp[1]))
           base.append(tp)
-      for leaf, extra in _ifexp_leaves(r.value):
+      for leaf, extra in _ifexp_leaves(loc.resolve(r.value)):
         label, kind = classify(leaf)
         del opaque[:]
         vals = [(_k3(t, atom), pol) for t, pol in base + extra]
@@ -2112,63 +2329,118 @@ def r20_7(ctx):
 PR = "pytype/pytd/printer.py"
 
 
-def _recognised_spellings(ctx):
-  """What RemoveAnyNeverTransformer's predicate recognises:
-  {'bare': names | None, 'qualified': names | None}."""
+def _any_predicate(ctx):
+  """The helper method of RemoveAnyNeverTransformer its callbacks decide with."""
   m = _model(ctx)
   mod, model = m.mod, _cst(ctx)
   methods = _methods(mod, _ANY_FILTER)
-  preds = set()
+  inter = _Inter(model, mod, _ANY_FILTER, methods, m.kinds[_ANY_FILTER])
+  preds, found = set(), []
   for name, fn in methods.items():
     if _method_env(model, mod, fn) is None:
       continue
     for c in calls_in(fn):
-      d = dotted(c.func) or ""
-      if d.startswith("self.") and d[5:] in methods and \
-          _method_env(model, mod, methods[d[5:]]) is None:
-        preds.add(d[5:])
+      h = inter.helper_of(c, fn)
+      if h is not None:
+        preds.add(h.name)
+        found.append(h)
   if len(preds) != 1:
     raise AnalysisError(f"{_ANY_FILTER}: predicates {sorted(preds)}")
-  pred = methods[preds.pop()]
-  ps = [a.arg for a in pred.args.args[1:]]
-  if len(ps) != 1:
-    raise AnalysisError(f"{pred.name}: parameters {ps}")
-  p = ps[0]
-  typer = Typer(model, mod, {})
-  out = {"bare": None, "qualified": None, "pred": pred}
-  tested = set()
-  for c in calls_in(pred, name="isinstance"):
-    if len(c.args) == 2 and src(c.args[0]) == p:
-      ks = c.args[1].elts if isinstance(c.args[1], ast.Tuple) else [c.args[1]]
-      for k in ks:
-        tested.add(typer.node_class(k))
-  for n in ast.walk(pred):
-    if isinstance(n, ast.Compare) and len(n.ops) == 1 and \
-        isinstance(n.ops[0], (ast.In, ast.Eq)):
-      consts = try_fold(n.comparators[0], mod=mod)
-      if isinstance(consts, str):
-        consts = (consts,)
-      if not isinstance(consts, (tuple, list, set, frozenset)) or \
-          not all(isinstance(x, str) for x in consts):
-        continue
-      left = src(n.left)
-      if left == f"{p}.value" and "Name" in tested:
-        out["bare"] = frozenset(consts) | (out["bare"] or frozenset())
-      elif left == f"{p}.attr.value" and "Attribute" in tested:
-        out["qualified"] = frozenset(consts) | (out["qualified"] or frozenset())
-  if out["bare"] is None:
-    raise AnalysisError(
-        f"{pred.name}: the set of names it recognises was not understood")
-  # idiom: `if isinstance(p, Attribute) and ...: p = p.attr` followed by the
-  # Name test: a qualified spelling is then recognised for the same names
-  for n in ast.walk(pred):
-    if isinstance(n, (ast.If, ast.While)) and "Attribute" in tested and \
-        f"isinstance({p}, " in src(n.test) and "Attribute" in src(n.test):
-      for st in n.body:
-        if isinstance(st, ast.Assign) and src(st.targets[0]) == p and \
-            src(st.value) == f"{p}.attr":
-          out["qualified"] = out["bare"] | (out["qualified"] or frozenset())
-  return out
+  pred = preds.pop()
+  pred = next(h for h in found if h.name == pred)
+  if len(pred.args.args) - (0 if _is_static(pred, mod) else 1) != 1 or pred.args.kwonlyargs:
+    raise AnalysisError(f"{pred.name}: parameters {[a.arg for a in pred.args.args]}")
+  return pred
+
+
+def _recognised_spellings(ctx, asked):
+  """What RemoveAnyNeverTransformer's predicate recognises, decided by
+  evaluating it (model execution, rules/_util_c20.py) on the node an
+  annotation text parses to - `Name(X)` for a bare name, an Attribute chain
+  for a dotted one - for every X among the string constants of merge_pyi.py
+  and the names the printer asks for:
+  {'bare': names, 'qualified': names recognised as typing.X, 'holds': text -> bool}."""
+  from rules import _util_c20 as mx
+  m = _model(ctx)
+  pred = _any_predicate(ctx)
+  it = mx._Interp(ctx)
+  obj = it.new(_ANY_FILTER, [], {})
+  memo = {}
+
+  def holds(text):
+    if text not in memo:
+      parts = text.split(".")
+      if not all(x.isidentifier() for x in parts):
+        raise AnalysisError(f"printer: `{text}` is not a (dotted) name")
+      node = mx._dotted(*parts)
+      if isinstance(m.mod.parent.get(pred), ast.ClassDef):
+        v = it.call_method(_ANY_FILTER, pred.name, obj, [node], {}, pred)
+      else:
+        v = it.call(pred, None, [node])
+      if isinstance(v, mx._Opaque):
+        raise AnalysisError(
+            f"{pred.name}: whether it holds for the annotation `{text}` depends on {v!r}")
+      memo[text] = bool(v) if not isinstance(v, (mx._N, mx._Obj)) else True
+    return memo[text]
+
+  cands = set(asked)
+  for n in ast.walk(m.mod.tree):
+    if isinstance(n, ast.Constant) and isinstance(n.value, str) and n.value.isidentifier():
+      cands.add(n.value)
+  return {"bare": frozenset(c for c in cands if holds(c)),
+          "qualified": frozenset(c for c in cands if holds(f"typing.{c}")),
+          "holds": holds, "pred": pred}
+
+
+def _spelling_texts(rd, expr, name_param, member, depth=0):
+  """The texts an expression of _FromTyping can evaluate to when its
+  parameter is `member`, or None when that is not a matter of constants."""
+  if depth > 8:
+    return None
+  if isinstance(expr, ast.Constant) and isinstance(expr.value, str):
+    return {expr.value}
+  if isinstance(expr, ast.Name):
+    ds = rd.defs_of(expr)
+    out = set()
+    for d in ds:
+      if d.kind == "param" and d.name == name_param:
+        out.add(member)
+      elif d.kind in ("assign", "walrus") and not d.path:
+        t = _spelling_texts(rd, d.value, name_param, member, depth + 1)
+        if t is None:
+          return None
+        out |= t
+      else:
+        return None
+    return out or None
+  if isinstance(expr, (ast.IfExp, ast.BoolOp)):
+    out = set()
+    for v in ([expr.body, expr.orelse] if isinstance(expr, ast.IfExp) else expr.values):
+      t = _spelling_texts(rd, v, name_param, member, depth + 1)
+      if t is None:
+        return None
+      out |= t
+    return out
+  parts = None
+  if isinstance(expr, ast.JoinedStr):
+    parts = []
+    for v in expr.values:
+      if isinstance(v, ast.FormattedValue):
+        if v.format_spec is not None or v.conversion != -1:
+          return None
+        v = v.value
+      parts.append(v)
+  elif isinstance(expr, ast.BinOp) and isinstance(expr.op, ast.Add):
+    parts = [expr.left, expr.right]
+  if parts is not None:
+    out = {""}
+    for v in parts:
+      t = _spelling_texts(rd, v, name_param, member, depth + 1)
+      if t is None or len(out) * len(t) > 64:
+        return None
+      out = {a + b for a in out for b in t}
+    return out
+  return None
 
 
 def _spelling_kinds(mod, rd, expr, name_param, depth=0):
@@ -2231,7 +2503,6 @@ def _spelling_kinds(mod, rd, expr, name_param, depth=0):
 @rule("R20.8", "C20", floor=5)
 def r20_8(ctx):
   """The stub printer's spellings of Any/Never are ones the merge filter knows."""
-  rec = _recognised_spellings(ctx)
   pm = get_module(ctx, PR)
   # (a) the member names the printer asks for
   asked = []
@@ -2251,6 +2522,8 @@ def r20_8(ctx):
       asked.append((qual, c, k))
   if not asked:
     raise AnalysisError("printer: no Any/Never spelling found")
+  names = {k for _, _, k in asked}
+  rec = _recognised_spellings(ctx, names)
   for qual, c, k in asked:
     ctx.check(k in rec["bare"], f"{qual}:spells:{k}", PR, c.lineno,
               f"the stub printer writes the type as typing member {k!r}, which "
@@ -2258,7 +2531,6 @@ def r20_8(ctx):
               f"(it knows {sorted(rec['bare'])}): the annotation passes the "
               "pre-filter and is merged",
               {"member": k, "filter_recognises": sorted(rec["bare"])})
-  names = {k for _, _, k in asked}
   # (b) the forms _FromTyping can give such a member
   fn = pm.func("PrintVisitor._FromTyping")
   ps = [a.arg for a in fn.args.args]
@@ -2269,52 +2541,76 @@ def r20_8(ctx):
   rets = [r for r in walk_no_nested(fn) if isinstance(r, ast.Return)]
   if not rets:
     raise AnalysisError("_FromTyping has no return")
-  qualified_ok = rec["qualified"] is not None and names <= rec["qualified"]
   for r in rets:
     if r.value is None:
       raise AnalysisError("_FromTyping: bare return")
     kinds = _spelling_kinds(pm, rd, r.value, name_param)
     g = flow.guards_txt(pm.parent, r)
-    collision = (f"self._NameCollision({name_param})", True) in g
+    # the qualified texts themselves, where they are a matter of constants
+    # (`f"typing.{name}"`); `typing.<member>` otherwise
+    spelled, assumed = set(), False
+    if "qualified" in kinds:
+      for k in sorted(names):
+        texts = _spelling_texts(rd, r.value, name_param, k)
+        texts = {t for t in texts if "." in t} if texts else None
+        if not texts:
+          texts, assumed = {f"typing.{k}"}, True
+        spelled |= texts
+    missed = sorted(t for t in spelled if not rec["holds"](t))
+    qualified_ok = not missed
     facts = {"forms": sorted(kinds), "guards": [list(x) for x in g],
-             "filter_recognises_qualified": qualified_ok}
+             "filter_recognises_qualified": qualified_ok if spelled else
+             names <= rec["qualified"]}
+    if spelled:
+      facts["qualified_spellings"] = sorted(spelled) + (["(assumed)"] if assumed else [])
     construct = "PrintVisitor._FromTyping:spelling:" + "|".join(sorted(kinds))
-    ok = "qualified" not in kinds or qualified_ok
-    ctx.check(ok, construct, PR, r.lineno,
+    ctx.check(qualified_ok, construct, PR, r.lineno,
               f"_FromTyping can spell a typing member as a qualified name "
-              f"(`{src(r.value)}`, under {g}) without a name collision forcing "
-              f"it; {_ANY_FILTER}.{rec['pred'].name} recognises only bare names "
-              f"{sorted(rec['bare'])}, so `typing.Any` / `typing.Never` pass "
+              f"(`{src(r.value)}`, under {g}: {missed}); "
+              f"{_ANY_FILTER}.{rec['pred'].name} does not hold for that spelling (it "
+              f"recognises the bare names {sorted(rec['bare'])} and, as typing.X, "
+              f"{sorted(rec['qualified'])}), so `typing.Any` / `typing.Never` pass "
               "the merge pre-filter and are inserted", facts)
 
 
 # -- sensitivity suite ---------------------------------------------------------------
 
 _PYI_OLD = """    pyi_cst = (
-        cst.parse_module(pyi)
-        .visit(RemoveAnyNeverTransformer())
+        pyi_cst.visit(RemoveAnyNeverTransformer())
         .visit(RemoveTrivialTypesTransformer())
+        .visit(RemoveUndefinedClassesTransformer(class_collector.class_names))
+        .visit(QuoteNestedClassesTransformer(stub_class_collector.class_names))
     )
 """
-_PYI_DISCARDED = """    pyi_cst = cst.parse_module(pyi)
-    pyi_cst.visit(RemoveAnyNeverTransformer()).visit(
-        RemoveTrivialTypesTransformer())
+_PYI_DISCARDED = """    (
+        pyi_cst.visit(RemoveAnyNeverTransformer())
+        .visit(RemoveTrivialTypesTransformer())
+        .visit(RemoveUndefinedClassesTransformer(class_collector.class_names))
+        .visit(QuoteNestedClassesTransformer(stub_class_collector.class_names))
+    )
 """
-_PYI_STEPWISE = """    stub = cst.parse_module(pyi)
-    stub = stub.visit(RemoveAnyNeverTransformer())
-    pyi_cst = stub.visit(RemoveTrivialTypesTransformer())
+_PYI_STEPWISE = """    stub = pyi_cst.visit(RemoveAnyNeverTransformer())
+    stub = stub.visit(RemoveTrivialTypesTransformer())
+    stub = stub.visit(RemoveUndefinedClassesTransformer(class_collector.class_names))
+    pyi_cst = stub.visit(QuoteNestedClassesTransformer(stub_class_collector.class_names))
 """
-_ANY_OLD = """  def _is_any_or_never(self, annotation: expression.Annotation | None):
-    return (
+_PYI_LOOP = """    for stub_filter in (
+        RemoveAnyNeverTransformer(),
+        RemoveTrivialTypesTransformer(),
+        RemoveUndefinedClassesTransformer(class_collector.class_names),
+        QuoteNestedClassesTransformer(stub_class_collector.class_names),
+    ):
+      pyi_cst = pyi_cst.visit(stub_filter)
+"""
+_ANY_TAIL = """    return (
         annotation
         and isinstance(annotation, expression.Name)
         and annotation.value in ("Any", "Never")
     )
 """
-_ANY_RENAMED = """  def _is_any_or_never(self, expr):
-    if not expr or not isinstance(expr, cst.Name):
+_ANY_TAIL_REWRITTEN = """    if not annotation or not isinstance(annotation, cst.Name):
       return False
-    return expr.value in ("Any", "Never")
+    return annotation.value in ("Any", "Never")
 """
 _REBUILD_OLD = """      if updated_node.value is None:
         return cst.RemovalSentinel.REMOVE
@@ -2389,14 +2685,8 @@ _LEAVE_ANN_TERNARY = """    is_any = self._is_any_or_never(original_node.annotat
       )
     return cst.RemovalSentinel.REMOVE if is_any else original_node
 """
-_ANY_QUALIFIED = """  def _is_any_or_never(self, annotation: expression.Annotation | None):
-    if isinstance(annotation, expression.Attribute):
+_ANY_QUALIFIED = """    if isinstance(annotation, expression.Attribute):
       return annotation.attr.value in ("Any", "Never")
-    return (
-        annotation
-        and isinstance(annotation, expression.Name)
-        and annotation.value in ("Any", "Never")
-    )
 """
 
 
@@ -2430,7 +2720,9 @@ def _v(name, rid, old, new, expect="fire"):
 VARIANTS = [
     # R20.1
     _v("any-never-filter-skipped", "R20.1",
-       "        .visit(RemoveAnyNeverTransformer())\n", ""),
+       "        pyi_cst.visit(RemoveAnyNeverTransformer())\n"
+       "        .visit(RemoveTrivialTypesTransformer())\n",
+       "        pyi_cst.visit(RemoveTrivialTypesTransformer())\n"),
     _v("trivial-types-filter-skipped", "R20.1",
        "        .visit(RemoveTrivialTypesTransformer())\n", ""),
     _v("filtered-stub-discarded", "R20.1", _PYI_OLD, _PYI_DISCARDED),
@@ -2456,8 +2748,13 @@ VARIANTS = [
        "    return _merge_csts(pyi_tree=pyi_cst, py_tree=py_cst).code", "silent"),
     {"name": "twin-filter-instance-held-in-a-local", "rule": "R20.1", "expect": "silent",
      "edits": [(MP, _PY_PARSE, _PY_PARSE + "    any_filter = RemoveAnyNeverTransformer()\n"),
-               (MP, "        .visit(RemoveAnyNeverTransformer())\n",
-                "        .visit(any_filter)\n")]},
+               (MP, "        pyi_cst.visit(RemoveAnyNeverTransformer())\n",
+                "        pyi_cst.visit(any_filter)\n")]},
+    _v("twin-stub-filters-applied-in-a-loop", "R20.1", _PYI_OLD, _PYI_LOOP, "silent"),
+    _v("loop-over-the-filters-leaves-one-out", "R20.1", _PYI_OLD,
+       _PYI_LOOP.replace("        RemoveTrivialTypesTransformer(),\n", "")),
+    _v("loop-over-the-filters-discards-the-result", "R20.1", _PYI_OLD,
+       _PYI_LOOP.replace("      pyi_cst = pyi_cst.visit(", "      pyi_cst.visit(")),
     {"name": "twin-source-read-by-a-read-only-visitor-inline", "rule": "R20.1",
      "expect": "silent",
      "edits": [(MP, _MS_DEF, _NAMES_VISITOR + _MS_DEF),
@@ -2497,7 +2794,7 @@ VARIANTS = [
     _v("literal-test-on-slice", "R20.3",
        "            and isinstance(annotation.annotation.value, expression.Name)",
        "            and isinstance(annotation.annotation.slice, expression.Name)"),
-    _v("twin-predicate-rewritten", "R20.3", _ANY_OLD, _ANY_RENAMED, "silent"),
+    _v("twin-predicate-rewritten", "R20.3", _ANY_TAIL, _ANY_TAIL_REWRITTEN, "silent"),
     _v("twin-qualified-any-unwrapped-in-a-loop", "R20.3", _D44_IF,
        _D44_IF.replace("    if (\n", "    while (\n"), "silent"),
     _v("qualified-any-loop-tests-the-wrapper", "R20.3",
@@ -2633,7 +2930,78 @@ VARIANTS = [
           "    if not alias and self._imports.get_alias(\"typing\"):\n"
           "      return \"typing.\" + name\n"
           "    alias = alias or name\n"),
-         (MP, _ANY_OLD, _ANY_QUALIFIED)]},
+         (MP, _D44_IF + "      # The stub printer writes `typing.Any` when the module defines its own\n"
+          "      # `Any`.\n      annotation = annotation.attr\n", _ANY_QUALIFIED)]},
     {"name": "revert-D44-with-qualifying-printer", "rule": "R20.8", "expect": "fire",
      "edits": [(MP, "    if (\n        isinstance(annotation, expression.Attribute)\n        and isinstance(annotation.value, expression.Name)\n        and annotation.value.value == \"typing\"\n    ):\n      # The stub printer writes `typing.Any` when the module defines its own\n      # `Any`.\n      annotation = annotation.attr\n", "")]},
+]
+
+
+def _p(name, rid, patch, expect="fire"):
+  return {"name": name, "rule": rid, "patch": f"benign/{patch}.diff", "expect": expect}
+
+
+# The behaviour-preserving refactorings benign/C20-r1..r4 (helper extraction,
+# guard clauses, hoisted locals, class/module constants, a shared base class, a
+# @staticmethod, the pipeline of merge_sources split into helper functions with
+# a loop over a tuple of filters) must stay silent - and each defect the rules
+# are there for must still be found when it is seeded into the refactored text
+# (benign/<id>/defect_*.diff = the refactoring plus one defect).
+VARIANTS += [
+    _p("twin-refactoring-C20-r1", "R20.7", "C20-r1/patch", "silent"),
+    _p("twin-refactoring-C20-r2", "R20.1", "C20-r2/patch", "silent"),
+    _p("twin-refactoring-C20-r3", "R20.3", "C20-r3/patch", "silent"),
+    _p("twin-refactoring-C20-r4", "R20.8", "C20-r4/patch", "silent"),
+    _p("twin-all-four-refactorings-at-once", "R20.1", "C20-r3/twin_all_c20_refactorings",
+       "silent"),
+    # r1: predicate split into a @staticmethod unwrapping helper + early returns
+    _p("r1-d4-annassign-passes-annotation-wrapper", "R20.3",
+       "C20-r1/defect_annassign_passes_wrapper"),
+    _p("r1-functiondef-passes-annotation-wrapper-through-a-local", "R20.3",
+       "C20-r1/defect_functiondef_passes_wrapper"),
+    _p("r1-unwrapping-helper-tests-an-unrelated-class", "R20.3",
+       "C20-r1/defect_strip_tests_unrelated_class"),
+    _p("r1-functiondef-guard-clause-inverted", "R20.7",
+       "C20-r1/defect_functiondef_guard_inverted"),
+    _p("r1-annassign-guard-clause-inverted", "R20.7",
+       "C20-r1/defect_annassign_guard_inverted"),
+    _p("r1-hoisted-local-holds-another-field", "R20.7",
+       "C20-r1/defect_hoisted_local_is_another_field", "error"),
+    _p("r1-class-constant-forgets-never", "R20.8", "C20-r1/defect_dropped_names_forget_never"),
+    _p("r1-unwrapping-helper-misspells-typing", "R20.8",
+       "C20-r1/defect_typing_prefix_misspelt"),
+    _p("r1-class-constant-is-a-list-mutated-elsewhere", "R20.8",
+       "C20-r1/defect_dropped_names_mutated_elsewhere", "error"),
+    _p("r1-assign-rebuilt-from-a-local-without-value-guard", "R20.6",
+       "C20-r1/defect_assign_rebuilt_without_value_guard"),
+    # r2: merge_sources split into _defined_class_names / _prefilter_stub, loop
+    # over a tuple of filter instances, _merge_csts without the class alias
+    _p("r2-any-never-filter-left-out-of-the-tuple", "R20.1",
+       "C20-r2/defect_any_never_filter_left_out"),
+    _p("r2-loop-discards-the-filtered-tree", "R20.1", "C20-r2/defect_loop_result_discarded"),
+    _p("r2-prefilter-helper-given-the-source-text", "R20.1",
+       "C20-r2/defect_prefilter_given_the_source"),
+    _p("r2-source-tree-prefiltered-too", "R20.1", "C20-r2/defect_source_prefiltered_too"),
+    _p("r2-returns-the-code-of-the-stub", "R20.1", "C20-r2/defect_returns_stub_code"),
+    _p("r2-trees-swapped-at-the-inline-call", "R20.1", "C20-r2/defect_trees_swapped"),
+    _p("r2-stub-and-target-swapped-in-merge", "R20.1",
+       "C20-r2/defect_stub_and_target_swapped_in_merge"),
+    _p("r2-prefilter-only-when-the-source-has-classes", "R20.1",
+       "C20-r2/defect_prefilter_only_when_the_source_has_classes", "error"),
+    _p("r2-overwrite-switch-on", "R20.2", "C20-r2/defect_overwrite_switch_on"),
+    _p("r2-collector-helper-uses-a-transformer", "R20.4",
+       "C20-r2/defect_collector_is_a_transformer"),
+    _p("r2-prefilter-helper-applied-to-the-merged-text", "R20.4",
+       "C20-r2/defect_prefilter_applied_to_merged_text"),
+    # r3: isinstance dispatch over a hoisted local, module constant, _quoted()
+    # @staticmethod, shared base class, comprehension -> loop
+    _p("r3-trivial-type-dispatch-tests-the-wrapper", "R20.3",
+       "C20-r3/defect_trivial_type_tests_wrapper"),
+    _p("r3-literal-test-on-the-slice", "R20.3", "C20-r3/defect_literal_test_on_slice"),
+    _p("r3-nested-class-test-given-the-base-wrapper", "R20.3",
+       "C20-r3/defect_nested_class_test_given_the_base_wrapper"),
+    _p("r3-static-helper-gives-the-node-as-second-field", "R20.6",
+       "C20-r3/defect_quoted_gives_the_node_as_second_field"),
+    _p("r3-loop-collects-bare-expressions-as-bases", "R20.6",
+       "C20-r3/defect_kept_bases_hold_bare_expressions"),
 ]
